@@ -65,6 +65,15 @@ def run(ctx):
         c["flags"] &= ~0x10000
         c["max_cost"] = 11000000000
     g, cases, consts_hex, valid = condlib.make_cases(rng.fork("cases"), n, ["aggsig", "aggsig", "ff", "single", "multi"], tweak)
+    # every AGG_SIG opcode with every kind of unusable key (outside the subgroup, infinity, not on the curve)
+    import condgen
+    extra = [c for c in condgen.matrix2_cases(g) if any(str(t[1]).startswith("badkey") for t in c["tags"])]
+    for c in extra:
+        c["flags"] &= ~0x10000
+    v2 = condlib.key_oracle(extra, g.keys)
+    for c in extra:
+        c["line"] = condgen.case_line(c, consts_hex, v2)
+    cases += extra
     cb = bytes.fromhex(consts_hex)
     consts = [cb[i * 32:(i + 1) * 32] for i in range(7)]
     keyidx = {k: i for i, k in enumerate(g.keys)}
@@ -98,6 +107,11 @@ def run(ctx):
     for idx, (c, l, m, p) in enumerate(zip(cases, lines, model, want)):
         if p is None:
             runs.append((l, "reject", idx, "rules-reject"))
+            # also with the signature check switched off: a bundle the rules reject for its KEYS (invalid, infinity,
+            # outside the subgroup) or message must not get as far as the verifier, whatever the verifier would say
+            t = l.split(" ")
+            t[1] = str(int(t[1]) | 0x10000)
+            runs.append((" ".join(t), "reject", idx, "rules-reject-nosig"))
             continue
         sig = next(sigs)
         for cache in (0, 1, 2):
